@@ -32,18 +32,18 @@ type Check struct {
 	P     *Prog
 	Start time.Time
 
-	Obls      []*Obl
-	Errs      []string
-	Notes     []string
-	Rules     map[string]string // rule -> text
-	RuleOrder []string
-	Analysed  map[string]bool // functions / constructs analysed
-	Paths     int             // paths enumerated
-	Sites     int             // call sites / instructions inspected
-	NotDecided []string
+	Obls        []*Obl
+	Errs        []string
+	Notes       []string
+	Rules       map[string]string // rule -> text
+	RuleOrder   []string
+	Analysed    map[string]bool // functions / constructs analysed
+	Paths       int             // paths enumerated
+	Sites       int             // call sites / instructions inspected
+	NotDecided  []string
 	Assumptions []string
-	Extra     map[string]any
-	seen      map[string]bool
+	Extra       map[string]any
+	seen        map[string]bool
 }
 
 func verifDir() string {
@@ -244,24 +244,24 @@ func (c *Check) Finish() int {
 			"%d rule(s) were instantiated into %d obligation(s) (one per mechanism site found in the current source); %d hold, %d are listed known findings, %d are violations. "+
 			"Each obligation is a structural necessary condition of the property decided over ALL paths of the named function(s); it is not a proof of the behaviour. Not decided: %s",
 			c.P.Dir, len(c.RuleOrder), len(c.Obls), discharged, len(knownHit), len(viol), strings.Join(c.NotDecided, "; ")),
-		"obligations":        len(c.Obls),
-		"discharged":         discharged,
-		"known_findings":     len(knownHit),
-		"evaluations":        len(c.Obls),
+		"obligations":         len(c.Obls),
+		"discharged":          discharged,
+		"known_findings":      len(knownHit),
+		"evaluations":         len(c.Obls),
 		"distinct_nontrivial": len(c.Obls),
-		"rule":               "one obligation per (rule, construct) found in the current source; all are distinct by key; non-trivial = the rule's pattern matched a real site (floors guard against vacuous rules)",
-		"rules":              rules,
-		"samples":            samples,
-		"functions_analysed": fns,
-		"packages_loaded":    len(c.P.Pkgs),
-		"function_bodies":    c.P.NumFuncs,
-		"paths_enumerated":   c.Paths,
-		"sites_inspected":    c.Sites,
-		"not_decided":        c.NotDecided,
-		"observations":       c.Notes,
-		"analysis_errors":    c.Errs,
-		"exhaustive":         true,
-		"checker_cmd":        "bin/taskverif check " + c.ID + " --tier " + c.Tier,
+		"rule":                "one obligation per (rule, construct) found in the current source; all are distinct by key; non-trivial = the rule's pattern matched a real site (floors guard against vacuous rules)",
+		"rules":               rules,
+		"samples":             samples,
+		"functions_analysed":  fns,
+		"packages_loaded":     len(c.P.Pkgs),
+		"function_bodies":     c.P.NumFuncs,
+		"paths_enumerated":    c.Paths,
+		"sites_inspected":     c.Sites,
+		"not_decided":         c.NotDecided,
+		"observations":        c.Notes,
+		"analysis_errors":     c.Errs,
+		"exhaustive":          true,
+		"checker_cmd":         "bin/taskverif check " + c.ID + " --tier " + c.Tier,
 	}
 	for k, v := range c.Extra {
 		cov[k] = v
